@@ -28,8 +28,10 @@ pub enum Verdict {
     Pass,
 }
 
+/// Every fifth tape (by its first word) drives the directed nested-assignment-target generator.
 pub fn make_case(tape: Vec<u32>, cfg: &Cfg, names: &Names) -> Case {
-    let program = crate::gprog_gen::generate(&tape, cfg);
+    let directed = tape.first().map(|w| w % 5 == 4).unwrap_or(false);
+    let program = if directed { crate::gprog_gen::generate_lvalue(&tape[1..], cfg) } else { crate::gprog_gen::generate(&tape, cfg) };
     let source = render(&program, names);
     let expected = expected(&program);
     Case { tape, program, source, expected }
